@@ -44,6 +44,9 @@ type Case struct {
 	Msgs    []Msg  `json:"msgs"`
 	Inject  []Inj  `json:"inject,omitempty"`
 	MaxKB   int    `json:"maxkb,omitempty"` // mem only: store-wide size limit (never reached here), i.e. the size enforcer is running
+	// NearWrap (file store) first advances the process-wide 4-digit id counter to just below 9999,
+	// so that the ids of the messages to be scanned straddle its wrap to 0000 within one second.
+	NearWrap bool `json:"near_wrap,omitempty"`
 }
 
 func age(class string, period time.Duration) time.Duration {
@@ -109,6 +112,38 @@ var prop = hx.Prop[Case]{
 	Run: run,
 }
 
+// propWrap is the scan over mailboxes whose ids straddle the wrap of the file store's id counter
+// (ids of one second are then not in ascending order).  About 10000 throw-away deliveries per
+// case, hence few cases.
+var propWrap = hx.Prop[Case]{
+	ID: pid, Name: "wrap",
+	Rule: "file store: the process-wide 4-digit id counter is first advanced to just below 9999 by throw-away deliveries, then 1-2 mailboxes " +
+		"receive 12-20 messages of mixed ages within moments (their ids straddle the wrap to 0000 and are not in ascending order) and are " +
+		"scanned; same oracle as 'scan'; non-trivial = some mailbox holds both expired and unexpired messages",
+	Quick: 1, Thorough: 3,
+	Gen: func(t *rapid.T) Case {
+		c := Case{Backend: "file", Period: rapid.SampledFrom([]int{600, 3600, 86400}).Draw(t, "period"), NBoxes: rapid.IntRange(1, 2).Draw(t, "nboxes"), NearWrap: true}
+		for i, n := 0, rapid.IntRange(12, 20).Draw(t, "nmsgs"); i < n; i++ {
+			c.Msgs = append(c.Msgs, Msg{Box: rapid.IntRange(0, c.NBoxes-1).Draw(t, "box"), Age: rapid.SampledFrom([]string{"ancient", "expired", "expired", "fresh", "future"}).Draw(t, "age")})
+		}
+		return c
+	},
+	Run: func(c Case) *hx.Outcome {
+		o := run(c)
+		// with one or two mailboxes "some mailbox is emptied completely" is rare; mixed is the point here
+		exp, fresh := false, false
+		for _, m := range c.Msgs {
+			if m.Age == "ancient" || m.Age == "expired" {
+				exp = true
+			} else {
+				fresh = true
+			}
+		}
+		o.NonTrivial = exp && fresh
+		return o
+	},
+}
+
 func boxNames(n int) []string {
 	pool := append(append([]string{}, hx.Bucket3()...), hx.Bucket6()...)
 	pool = append(pool, "r1", "r2", "r3", "r4")
@@ -125,6 +160,23 @@ func run(c Case) *hx.Outcome {
 		st = hx.NewFile(host, dir, 0)
 	} else {
 		st = hx.NewMem(host, 0, c.MaxKB)
+	}
+	if c.NearWrap && c.Backend == "file" {
+		o.Class("ids straddle the wrap of the file store's id counter")
+		for n := 0; n < 10050; n++ {
+			id, err := st.AddMessage(hx.NewDelivery("wrapfill", nil, nil, time.Now(), "f", []byte("x")))
+			if err != nil {
+				o.Failf(pid+":harness", "wrap fill: %v", err)
+				return o
+			}
+			if n%50 == 49 {
+				_ = st.PurgeMessages("wrapfill")
+			}
+			if len(id) > 4 && id[len(id)-4:] >= "9994" {
+				break
+			}
+		}
+		_ = st.PurgeMessages("wrapfill")
 	}
 	names := boxNames(c.NBoxes)
 	period := time.Duration(c.Period) * time.Second
@@ -623,13 +675,19 @@ func TestProp(t *testing.T) {
 	t.Run("storm", propStorm.Check)
 	t.Run("scan", prop.Check)
 	t.Run("lifecycle", propLife.Check)
+	t.Run("wrap", propWrap.Check)
 }
-func TestRegress(t *testing.T) { prop.Regress(t); propLife.Regress(t); propStorm.Regress(t) }
+func TestRegress(t *testing.T) {
+	prop.Regress(t)
+	propLife.Regress(t)
+	propStorm.Regress(t)
+	propWrap.Regress(t)
+}
 func TestReplay(t *testing.T) {
 	if *hx.ReplayPath == "" {
 		t.Skip("no -replay")
 	}
-	if !prop.Replay(t, *hx.ReplayPath) && !propLife.Replay(t, *hx.ReplayPath) && !propStorm.Replay(t, *hx.ReplayPath) {
+	if !prop.Replay(t, *hx.ReplayPath) && !propLife.Replay(t, *hx.ReplayPath) && !propStorm.Replay(t, *hx.ReplayPath) && !propWrap.Replay(t, *hx.ReplayPath) {
 		t.Fatalf("no prop matches %s", *hx.ReplayPath)
 	}
 }
